@@ -60,6 +60,12 @@ CLAIMED.update({
    note="Limits are probed at limit-1..limit+2 only. In the quick tier the 2^16 boundary of constant/global indices is reached through chained units (one 65536-statement program is quadratic to compile); thorough also compiles the single huge programs.",
    technique="exhaustive codec enumeration + explicit-state trace conformance against the VM + exhaustive limit grid"),
 })
+CLAIMED.update({
+ "C08": dict(level="model_checking", design="4.8",
+   text="Invariant-only exhaustive sweeps on the real code in watchdogged worker processes: every one of the 47 builtins x arity 0..3 x every tuple of 16 argument kinds (incl. file, pcap, packet and error objects); every builtin x every single and pair of 67 boundary values; the complete C09 operator x operand table; 145 recursion/frame/locals programs around the 4096 frame and stack limits; 93 filter programs (jumps/returns at every action position, every truthiness value as pattern, filters nested in functions/blocks/loops/filters, failing patterns/actions) through an in-process copy of main.rs's filter loop and through the binary (also on a 5000-packet stream); exit statuses. Never a panic, abort, signal or hang.",
+   note="exit(n) and sleep(n != 0) are not called in-process. Non-termination is decided up to a 30 s per-case horizon. Memory-exhausting requests and self-containing containers are excluded by the property.",
+   technique="bounded exhaustive enumeration of calls/programs with a crash/hang invariant (catch_unwind + per-case process watchdog)"),
+})
 NOT_YET = "check not built yet in this round (machinery under construction; see DESIGN.md section 4 for the planned check)"
 
 props = [json.loads(l) for l in open(os.path.join(HERE, "properties.jsonl"))]
